@@ -42,7 +42,7 @@ func c06InFlight(r *enginesim.Result) bool {
 
 func TestC06(t *testing.T) {
 	c := evid.New("C06")
-	c.Rule = "one case in 25 sends the writes as elements of one bulk request (outcomes known by construction, a third of the elements with an idempotency key of their own) through the real router over a real Commander: the persisted log must hold exactly the acknowledged elements, in order. One case in 25 is store-layer: a chained batch of 1-5 generated entries goes through the real ledgerstore.Store.InsertLogs over a recording SQL driver that keeps a transaction's rows apart until its COMMIT succeeds; one run per failing driver step (begin, prepare, each row, flush, statement close, commit): success answered => every row committed, error => none. Otherwise two modes. Sampled (19 of 20 cases): one run of a generated history of up to 3 rounds with crash points, a store fault and the death grace drawn with the plan. Enumerated (1 of 20): per generated history (funding prefix + 1-2 rounds of 1-3 concurrent writes of all kinds, keys and references, one choice list): the fault-free run, then one run per crash position 0..K and one run per failing InsertLogs call (exhaustive per history). evaluations = runs. Oracle per run: each success has exactly one entry with the returned content, persisted before the answer; errors leave nothing; no orphan entry; ids stay dense across the restart. Non-trivial = the crash/fault struck while a request was between chaining and its answer; distinct by operations + gate trace + fault position."
+	c.Rule = "one case in 25 runs two ledgers of one bucket (a real Commander each; InsertLogs and the idempotency-key lookup of both go through the real ledgerstore.Store over one recording database served by the mini SQL engine) through 3-10 sequential keyed and unkeyed writes with keys used on both ledgers: a success on a key never used on its own ledger has exactly one new entry of its own in its own log. One case in 25 sends the writes as elements of one bulk request (outcomes known by construction, a third of the elements with an idempotency key of their own) through the real router over a real Commander: the persisted log must hold exactly the acknowledged elements, in order. One case in 25 is store-layer: a chained batch of 1-5 generated entries goes through the real ledgerstore.Store.InsertLogs over a recording SQL driver that keeps a transaction's rows apart until its COMMIT succeeds; one run per failing driver step (begin, prepare, each row, flush, statement close, commit): success answered => every row committed, error => none. Otherwise two modes. Sampled (19 of 20 cases): one run of a generated history of up to 3 rounds with crash points, a store fault and the death grace drawn with the plan. Enumerated (1 of 20): per generated history (funding prefix + 1-2 rounds of 1-3 concurrent writes of all kinds, keys and references, one choice list): the fault-free run, then one run per crash position 0..K and one run per failing InsertLogs call (exhaustive per history). evaluations = runs. Oracle per run: each success has exactly one entry with the returned content, persisted before the answer; errors leave nothing; no orphan entry; ids stay dense across the restart. Non-trivial = the crash/fault struck while a request was between chaining and its answer; distinct by operations + gate trace + fault position."
 	c.Assumptions = []string{engineAssumption, "a crash is modelled as: the generation's goroutines stop at their next scheduling point, un-inserted batches vanish, a new Commander is built over the same store"}
 	cfg := enginesim.DefaultConfig()
 	cfg.MaxRounds = 2
@@ -68,6 +68,11 @@ func TestC06(t *testing.T) {
 	runProp(t, c, func(rt *rapid.T) {
 		if rapid.IntRange(0, 24).Draw(rt, "storeLayer") == 0 {
 			c06StoreLayer(rt, c)
+			return
+		}
+		if rapid.IntRange(0, 24).Draw(rt, "sharedBucket") == 0 {
+			// two ledgers of one bucket, keys used on both, the idempotency lookup through the real SQL store
+			sharedBucket(rt, c, "C06")
 			return
 		}
 		if rapid.IntRange(0, 24).Draw(rt, "bulkFamily") == 0 {
